@@ -16,6 +16,7 @@ RULE = ("random points of each domain (rho>0.2, polar angle in (0.15, pi-0.15), 
         "Cartesian position; (5) convert_vector preserves Cartesian components; (6) Lame coefficients == |d r / d q_i| from the "
         "library's own Cartesian map and from finite differences of the own map; wrong arity / unsupported systems refused. "
         "non-trivial = point off the coordinate planes; distinct = (point, pair).")
+RULE = RULE + " Also: points with symbolic coordinates (fresh symbols, the system's own base scalars permuted, expressions of them); bracketed vectors; conversions chained A->B->A and A->B->C on the result as returned."
 ASSUMPTIONS = ["own geometric model in this file (written from the ISO definitions)"]
 N = {"quick": 208, "thorough": 4800}
 MIN_REACH = {"quick": {"symbolic_point": 1000, "vector_bracketed": 1000, "vector_chain": 2000, "scalars": 1000, "roundtrip": 1000, "via_third": 1000, "base_vectors": 1000, "inverse_transpose": 500,
